@@ -6,6 +6,8 @@ import SciVerif.Lemmas.C13k
 import SciVerif.Lemmas.C13l
 import SciVerif.Lemmas.C13m
 import SciVerif.Lemmas.C13n
+import SciVerif.Lemmas.C13o
+import SciVerif.Lemmas.C13p
 
 /-!
 # C13 — DIP node paths follow indentation and values are the literals written
@@ -110,6 +112,50 @@ example : isBlank (encode (List.replicate 4 ' ')) = true := by
   simp only [List.append_nil] at this
   rw [this]
   simp [encode, replaceAll, isBlank, isWs]
+
+/-- **From the string given to `add_string`.**  For a text without triple quotes, `DIP.add_string` + `_get_queue`
+    + `parse` (split at newlines, strip the blank lines at both ends, queue every line) is `parse` on the list of
+    its lines: `parseText` (what the driver runs against the real code) and `parseLines` (what the theorems above
+    talk about) agree on `lines` joined by newlines, for every non-empty list of newline-free lines — blank
+    lines at the ends included (they are stripped, and by `C13_blank_comment_invariance` do not matter). -/
+theorem C13_text_is_lines (P : Params) (lines : List Str) (hne : lines ≠ [])
+    (hnl : ∀ l ∈ lines, ∀ c ∈ l, c ≠ '\n') (hq : ∀ l ∈ lines, hasTriple l = false) :
+    parseText P (joinWith ['\n'] lines) = parseLines P lines := by
+  unfold parseText
+  rw [splitOn_join '\n' lines hne hnl]
+  obtain ⟨pre, post, hdec, hpre, hpost⟩ := strip_decomp lines
+  generalize hS : stripBlankLines lines = S at *
+  subst hdec
+  have hSq : ∀ l ∈ S, hasTriple l = false := fun l hl => hq l (by simp [hl])
+  rw [getQueue_noTriple S hSq]
+  have hdropPre : ∀ (pre X : List Str), (∀ l ∈ pre, isBlank l = true ∧ ∀ c ∈ l, c ≠ '\n') →
+      parseLines P (pre ++ X) = parseLines P X := by
+    intro pre
+    induction pre with
+    | nil => intro X _; rfl
+    | cons l t ih =>
+      intro X h
+      have hl := h l (by simp)
+      have := C13_blank_comment_invariance P [] (t ++ X) l (.inl (isBlank_encode l hl.1 hl.2))
+      simp only [List.nil_append] at this
+      rw [List.cons_append, this]
+      exact ih X (fun x hx => h x (List.mem_cons_of_mem _ hx))
+  have hdropPost : ∀ (post X : List Str), (∀ l ∈ post, isBlank l = true ∧ ∀ c ∈ l, c ≠ '\n') →
+      parseLines P (X ++ post) = parseLines P X := by
+    intro post
+    induction post with
+    | nil => intro X _; simp
+    | cons l t ih =>
+      intro X h
+      have hl := h l (by simp)
+      rw [C13_blank_comment_invariance P X t l (.inl (isBlank_encode l hl.1 hl.2))]
+      exact ih X (fun x hx => h x (List.mem_cons_of_mem _ hx))
+  rw [hdropPost post (pre ++ S) (fun l hl => ⟨hpost l hl, hnl l (by simp [hl])⟩),
+    hdropPre pre S (fun l hl => ⟨hpre l hl, hnl l (by simp [hl])⟩)]
+  rfl
+
+example : joinWith ['\n'] ["".toList, "a int = 1".toList, "  b int = 2".toList, " ".toList] =
+    "\na int = 1\n  b int = 2\n ".toList := by decide
 
 /-- One parameter per distinct path, in order of first appearance: whenever `parse` succeeds the
     paths of the returned nodes are pairwise different, every node has a value object, and the
@@ -266,12 +312,13 @@ theorem C13_cast_float_literal (f : FloatD) (hf : f.Ok) :
 
 example : (FloatD.mk (some true) "1".toList (some "5".toList) (some (true, some true, "3".toList))).render = "-1.5E-3".toList := by decide
 
-/-! ### inline arrays (flat case proved; nested arrays, numpy shape rules and tables: correspondence only) -/
+/-! ### inline arrays (value string level; the text-level statements, element casts, string elements and the
+    rejection of ragged arrays follow further down) -/
 
 /-- `json.loads` + the shape test of `cast_value` on a flat inline array `[t1,…,tn]` (elements are
     words without blanks, commas, brackets): the elements come back in order with shape `[n]`, and
     the value is the array of the element casts whenever the declared dimension admits `n`.
-    Partial: nested arrays are not covered by a theorem. -/
+    Partial: depth 1 only (all depths: `C13_inline_array`; from the text of the line: `C13_inline_array_text`). -/
 theorem C13_inline_array_flat_partial (ty : Ty) (ds : List Dim) (toks : List Str) (atoms : List Atom)
     (hne : toks ≠ []) (hok : ∀ t ∈ toks, TokOk t)
     (hel : (toks.map Tok.bare).mapM (tokAtom ty) = .ok atoms) (hd : checkDims ds [toks.length] = true) :
@@ -306,6 +353,400 @@ theorem C13_inline_array_shape (items : List (Str × List Tok)) (sh : List Nat) 
       .ok (items.length :: sh, items.flatMap Prod.snd) :=
   parseJson_rendered (Rendered.arr items sh hne h)
 
+/-! ### inline arrays at text level: from the line as written to the node `parse` returns -/
+
+/-- **Nested inline arrays, text level.**  The definition line
+    `<k blanks>name type[dims] = [[…],[…]] [unit] [# comment]` (any number of blanks in every gap; the array a
+    rendered rectangular nested list of ANY depth ≥ 1 without `#`, backslash, `$`) goes through the whole
+    front end: (1) the lexer returns the definition node whose raw value is exactly the array text;
+    (2) `set_value` = `cast_value` on that node gives the array of the element casts with shape = the nesting
+    dimensions, provided the declared dimension admits the shape; (3) `parse` on the one-line program returns
+    exactly one parameter: the name, type, width/sign, dimension and unit written, and that array value.
+    (`hunit`: a unit is written only on int/float lines and is known; `hel`: the element casts succeed — discharged
+    for integer, float and boolean elements by `C13_array_int_elements`, `C13_array_float_elements`,
+    `C13_array_bool_elements`; `C13_int_array_text` and `C13_float_array_text` are the instances without any
+    hypothesis on the elements.) -/
+theorem C13_inline_array_text (tbl : List UnitRow) (k : Nat) (nm : Str) (a : Nat) (ty : TyD) (dims : Option (List DimD))
+    (b c : Nat) (s : Str) (sh : List Nat) (toks : List Tok) (atoms : List Atom) (ds : List Dim)
+    (unit cm : Option (Nat × Str))
+    (hn : NameOk nm) (hd : DimsOk dims) (hu : ∀ n x, unit = some (n, x) → UnitOk x)
+    (htail : NoEsc (renderTail unit cm))
+    (hunit : ∀ n x, unit = some (n, x) → (ty.ty = .int ∨ ty.ty = .float) ∧ tbl.any (fun r => r.name = x) = true)
+    (hr : Rendered s sh toks) (hsh : sh ≠ []) (hplain : ∀ ch ∈ s, ch ≠ '#' ∧ ch ≠ '\\' ∧ ch ≠ '$')
+    (hds : dimsValue dims = some ds) (hel : toks.mapM (tokAtom ty.ty) = .ok atoms) (hcd : checkDims ds sh = true) :
+    let line := List.replicate k ' ' ++ (definePrefix nm a ty dims b c ++ (s ++ renderTail unit cm))
+    determine line = .ok (blockNode k nm ty dims s unit) ∧
+    initValue (mkParams tbl) ty.ty (some ds) (some (.text s)) = .ok (some (.array sh atoms)) ∧
+    parseLines (mkParams tbl) [line] =
+      .ok [{ name := nm, ty := ty.ty, info := ty.info, dims := some ds, units := unit.map Prod.snd,
+             value := some (.array sh atoms), declared := false }] := by
+  intro line
+  obtain ⟨r, hsr⟩ := rendered_head hr hsh
+  have hws := rendered_noWs hr
+  have hlit : Lit.Ok (.bare s) :=
+    ⟨⟨'[', r, hsr, by decide, by decide, by decide, by decide⟩, fun ch hch => ⟨(hplain ch hch).1, hws ch hch⟩⟩
+  have hdet : determine line = .ok (blockNode k nm ty dims s unit) :=
+    determine_define_bare k nm a ty dims b c s unit cm hn hd hu htail hlit
+      (fun ch hch => ⟨(hplain ch hch).2.1, (hplain ch hch).2.2⟩)
+  have hnone : (s == "none".toList) = false := ne_none_of_head _ (by rw [hsr]; simp)
+  have hcast := (C13_inline_array ty.ty ds s sh toks atoms hr hnone hel hcd).2
+  have hinit : initValue (mkParams tbl) ty.ty (some ds) (some (.text s)) = .ok (some (.array sh atoms)) := by
+    have he : s.isEmpty = false := by rw [hsr]; rfl
+    simp only [initValue, he, Bool.false_and, Bool.false_eq_true, if_false, mkParams, hcast, bind, Except.bind]
+  refine ⟨hdet, hinit, ?_⟩
+  have h := parseLines_single_define (mkParams tbl) line _ ty.ty nm (.array sh atoms) hdet rfl rfl
+    (preCheck_blockNode tbl k nm ty dims s unit hunit) (by simpa only [blockNode, hds] using hinit)
+  simpa only [blockNode, hds] using h
+
+example : Rendered "[[1,2],[3,4]]".toList [2, 2] [.bare "1".toList, .bare "2".toList, .bare "3".toList, .bare "4".toList] := by
+  have t : ∀ x : Str, x = "1".toList ∨ x = "2".toList ∨ x = "3".toList ∨ x = "4".toList → TokOk x := by
+    intro x hx; rcases hx with rfl | rfl | rfl | rfl <;> exact ⟨⟨_, _, rfl, by decide⟩, by decide⟩
+  have r1 := Rendered.arr [("1".toList, [.bare "1".toList]), ("2".toList, [.bare "2".toList])] [] (by simp)
+    (by intro it h; simp at h; rcases h with rfl | rfl <;> exact Rendered.tok _ (t _ (by simp)))
+  have r2 := Rendered.arr [("3".toList, [.bare "3".toList]), ("4".toList, [.bare "4".toList])] [] (by simp)
+    (by intro it h; simp at h; rcases h with rfl | rfl <;> exact Rendered.tok _ (t _ (by simp)))
+  exact Rendered.arr [("[1,2]".toList, [.bare "1".toList, .bare "2".toList]), ("[3,4]".toList, [.bare "3".toList, .bare "4".toList])]
+    [2] (by simp) (by intro it h; simp only [List.mem_cons, List.not_mem_nil, or_false] at h; rcases h with rfl | rfl; exact r1; exact r2)
+
+/-- **Element casts of integer arrays** (`np.array(json value, dtype=int)`).  An element written as JSON writes
+    integers (optional `-`, then `0` or digits without a leading zero) inside the 64-bit range is one array word
+    and is stored as the integer the digits denote. -/
+theorem C13_array_int_elements (its : List IntTok) (h : ∀ i ∈ its, i.Ok) :
+    (∀ i ∈ its, TokOk i.render) ∧
+    (its.map (fun i => Tok.bare i.render)).mapM (tokAtom .int) =
+      .ok (its.map (fun i => Atom.num ((i.value : Int) : Rat))) :=
+  ⟨fun i hi => intTok_tokOk i (h i hi),
+   mapM_ok_map (tokAtom .int) _ _ its (fun i hi => tokAtom_intTok i (h i hi))⟩
+
+example : (IntTok.mk true "30".toList).Ok ∧ (IntTok.mk true "30".toList).render = "-30".toList ∧
+    (IntTok.mk true "30".toList).value = -30 :=
+  ⟨⟨by decide, by decide, by decide, by decide⟩, by decide, by decide⟩
+
+/-- the same for boolean arrays: the words `true` / `false` -/
+theorem C13_array_bool_elements (bs : List Bool) :
+    (∀ b ∈ bs, TokOk (if b then "true".toList else "false".toList)) ∧
+    (bs.map (fun b => Tok.bare (if b then "true".toList else "false".toList))).mapM (tokAtom .bool) =
+      .ok (bs.map Atom.bool) :=
+  ⟨fun b _ => boolTok_tokOk b, mapM_ok_map (tokAtom .bool) _ _ bs (fun b _ => tokAtom_boolTok b)⟩
+
+/-- **Integer arrays of any nesting depth, from the text to the value** (no hypothesis on the element casts,
+    none on the characters): the one-line program `name [u]int[NN][dims] = [[i,…],[…]] [unit] [# comment]`, the
+    array a rectangular nested list of integer literals in the 64-bit range, parses to exactly one parameter
+    whose value is the array of those integers, in row-major order, with shape = the nesting dimensions. -/
+theorem C13_int_array_text (tbl : List UnitRow) (k : Nat) (nm : Str) (a : Nat) (uns : Bool) (w : Option IntW)
+    (dims : Option (List DimD)) (b c : Nat) (s : Str) (sh : List Nat) (its : List IntTok) (ds : List Dim)
+    (unit cm : Option (Nat × Str))
+    (hn : NameOk nm) (hd : DimsOk dims) (hu : ∀ n x, unit = some (n, x) → UnitOk x)
+    (htail : NoEsc (renderTail unit cm))
+    (hunit : ∀ n x, unit = some (n, x) → tbl.any (fun r => r.name = x) = true)
+    (hr : Rendered s sh (its.map (fun i => Tok.bare i.render))) (hsh : sh ≠ []) (hok : ∀ i ∈ its, i.Ok)
+    (hds : dimsValue dims = some ds) (hcd : checkDims ds sh = true) :
+    parseLines (mkParams tbl)
+        [List.replicate k ' ' ++ (definePrefix nm a (.int uns w) dims b c ++ (s ++ renderTail unit cm))] =
+      .ok [{ name := nm, ty := .int, info := (TyD.int uns w).info, dims := some ds, units := unit.map Prod.snd,
+             value := some (.array sh (its.map (fun i => Atom.num ((i.value : Int) : Rat)))), declared := false }] :=
+  (C13_inline_array_text tbl k nm a (.int uns w) dims b c s sh _ _ ds unit cm hn hd hu htail
+    (fun n x h => ⟨.inl rfl, hunit n x h⟩) hr hsh (rendered_int_plain its hok hr) hds
+    (C13_array_int_elements its hok).2 hcd).2.2
+
+/-- **Element casts of float arrays** (`np.array(json value, dtype=float)`).  An element written as a JSON number
+    (optional `-`, integer part without leading zero, optional `.digits`, optional exponent `e|E[+-]digits`;
+    integer literals included) is one array word and is stored as the rational number the literal denotes. -/
+theorem C13_array_float_elements (fs : List FloatD) (h : ∀ f ∈ fs, f.Ok ∧ f.Json) :
+    (∀ f ∈ fs, TokOk f.render) ∧
+    (fs.map (fun f => Tok.bare f.render)).mapM (tokAtom .float) = .ok (fs.map (fun f => Atom.num f.value)) :=
+  ⟨fun f hf => floatD_tokOk f (h f hf).1 (h f hf).2,
+   mapM_ok_map (tokAtom .float) _ _ fs (fun f hf => tokAtom_floatD f (h f hf).1 (h f hf).2)⟩
+
+example : (FloatD.mk (some true) "1".toList (some "5".toList) (some (true, some true, "3".toList))).Ok ∧
+    (FloatD.mk (some true) "1".toList (some "5".toList) (some (true, some true, "3".toList))).Json :=
+  ⟨⟨by decide, by intro x hx; cases hx; decide, .inl (by decide), by intro cap es ed h; cases h; decide⟩,
+   ⟨by decide, by decide, by decide, by intro x hx; cases hx; decide⟩⟩
+
+/-- **Float arrays of any nesting depth, from the text to the value**: the one-line program
+    `name float[NN][dims] = [[x,…],[…]] [unit] [# comment]`, the array a rectangular nested list of JSON numbers,
+    parses to exactly one parameter whose value is the array of the numbers denoted, in row-major order, with
+    shape = the nesting dimensions. -/
+theorem C13_float_array_text (tbl : List UnitRow) (k : Nat) (nm : Str) (a : Nat) (w : Option FloatW)
+    (dims : Option (List DimD)) (b c : Nat) (s : Str) (sh : List Nat) (fs : List FloatD) (ds : List Dim)
+    (unit cm : Option (Nat × Str))
+    (hn : NameOk nm) (hd : DimsOk dims) (hu : ∀ n x, unit = some (n, x) → UnitOk x)
+    (htail : NoEsc (renderTail unit cm))
+    (hunit : ∀ n x, unit = some (n, x) → tbl.any (fun r => r.name = x) = true)
+    (hr : Rendered s sh (fs.map (fun f => Tok.bare f.render))) (hsh : sh ≠ []) (hok : ∀ f ∈ fs, f.Ok ∧ f.Json)
+    (hds : dimsValue dims = some ds) (hcd : checkDims ds sh = true) :
+    parseLines (mkParams tbl)
+        [List.replicate k ' ' ++ (definePrefix nm a (.float w) dims b c ++ (s ++ renderTail unit cm))] =
+      .ok [{ name := nm, ty := .float, info := (TyD.float w).info, dims := some ds, units := unit.map Prod.snd,
+             value := some (.array sh (fs.map (fun f => Atom.num f.value))), declared := false }] :=
+  (C13_inline_array_text tbl k nm a (.float w) dims b c s sh _ _ ds unit cm hn hd hu htail
+    (fun n x h => ⟨.inr rfl, hunit n x h⟩) hr hsh (rendered_float_plain fs (fun f hf => (hok f hf).1) hr) hds
+    (C13_array_float_elements fs hok).2 hcd).2.2
+
+/-- **Boolean arrays of any nesting depth, from the text to the value.** -/
+theorem C13_bool_array_text (tbl : List UnitRow) (k : Nat) (nm : Str) (a : Nat) (dims : Option (List DimD)) (b c : Nat)
+    (s : Str) (sh : List Nat) (bs : List Bool) (ds : List Dim) (cm : Option (Nat × Str))
+    (hn : NameOk nm) (hd : DimsOk dims) (htail : NoEsc (renderTail none cm))
+    (hr : Rendered s sh (bs.map (fun b => Tok.bare (if b then "true".toList else "false".toList)))) (hsh : sh ≠ [])
+    (hds : dimsValue dims = some ds) (hcd : checkDims ds sh = true) :
+    parseLines (mkParams tbl)
+        [List.replicate k ' ' ++ (definePrefix nm a .bool dims b c ++ (s ++ renderTail none cm))] =
+      .ok [{ name := nm, ty := .bool, info := {}, dims := some ds, units := none,
+             value := some (.array sh (bs.map Atom.bool)), declared := false }] :=
+  (C13_inline_array_text tbl k nm a .bool dims b c s sh _ _ ds none cm hn hd (by intro n x h; cases h) htail
+    (by intro n x h; cases h) hr hsh (rendered_bool_plain bs hr) hds (C13_array_bool_elements bs).2 hcd).2.2
+
+/-- **Ragged arrays are rejected.**  In `[item,…,item,BAD…` with `n ≥ 1` items of one common shape followed by an
+    item of a different shape (both rendered nested lists of any depth; what follows `BAD` is arbitrary text
+    starting with `,` `]` `[` or a blank, or nothing) `json.loads` + `np.array` fail, so `cast_value` fails for every
+    type and declared dimension, and the one-line program defining a parameter with that value does not parse. -/
+theorem C13_ragged_array_rejected (tbl : List UnitRow) (k : Nat) (nm : Str) (a : Nat) (ty : TyD) (dims : Option (List DimD))
+    (b c : Nat) (sh0 sh1 : List Nat) (pre : List (Str × List Tok)) (bad : Str × List Tok) (post : Str) (ds : List Dim)
+    (unit cm : Option (Nat × Str))
+    (hpre : pre ≠ []) (h0 : ∀ it ∈ pre, Rendered it.1 sh0 it.2) (h1 : Rendered bad.1 sh1 bad.2) (hne : sh1 ≠ sh0)
+    (hpost : post = [] ∨ ∃ ch r, post = ch :: r ∧ isDelim ch = true) :
+    let s := '[' :: (joinWith [','] (pre.map Prod.fst) ++ ',' :: (bad.1 ++ post))
+    parseJson s = .error .fail ∧
+    (∀ t : Ty, castText t (some ds) s = .error .fail) ∧
+    (NameOk nm → DimsOk dims → (∀ n x, unit = some (n, x) → UnitOk x) → NoEsc (renderTail unit cm) →
+      (∀ n x, unit = some (n, x) → (ty.ty = .int ∨ ty.ty = .float) ∧ tbl.any (fun r => r.name = x) = true) →
+      (∀ ch ∈ s, ch ≠ '#' ∧ isWs ch = false ∧ ch ≠ '\\' ∧ ch ≠ '$') → dimsValue dims = some ds →
+      parseLines (mkParams tbl)
+        [List.replicate k ' ' ++ (definePrefix nm a ty dims b c ++ (s ++ renderTail unit cm))] = .error .fail) := by
+  intro s
+  have hp : parseJson s = .error .fail := parseJson_ragged sh0 sh1 pre bad post hpre h0 h1 hne hpost
+  have hnone : (s == "none".toList) = false := ne_none_of_head _ (by simp [s])
+  have hc : ∀ t : Ty, castText t (some ds) s = .error .fail := by
+    intro t
+    simp only [castText, hnone, Bool.false_eq_true, if_false, hp, bind, Except.bind]
+  refine ⟨hp, hc, ?_⟩
+  intro hn hd hu htail hunit hplain hds
+  have hlit : Lit.Ok (.bare s) :=
+    ⟨⟨'[', _, rfl, by decide, by decide, by decide, by decide⟩, fun ch hch => ⟨(hplain ch hch).1, (hplain ch hch).2.1⟩⟩
+  have hdet := determine_define_bare k nm a ty dims b c s unit cm hn hd hu htail hlit
+    (fun ch hch => ⟨(hplain ch hch).2.2.1, (hplain ch hch).2.2.2⟩)
+  have hinit : initValue (mkParams tbl) ty.ty (some ds) (some (.text s)) = .error .fail := by
+    have he : s.isEmpty = false := rfl
+    simp only [initValue, he, Bool.false_and, Bool.false_eq_true, if_false, mkParams, hc, bind, Except.bind]
+  exact parseLines_single_define_error (mkParams tbl) _ _ ty.ty nm .fail hdet rfl rfl
+    (preCheck_blockNode tbl k nm ty dims s unit hunit) (by simpa only [blockNode, hds] using hinit)
+
+example : "[[1,2],[3]]".toList =
+    '[' :: (joinWith [','] ([("[1,2]".toList, [Tok.bare "1".toList, Tok.bare "2".toList])].map Prod.fst) ++
+      ',' :: (("[3]".toList, [Tok.bare "3".toList]).1 ++ "]".toList)) := by decide
+
+/-- **Inline arrays with quoted string elements** (`["a","b"]`, any nesting depth).  `RenderedQ` is `Rendered` with
+    one more kind of leaf: `"text"` (the text free of quotes, backslashes and control characters).  `json.loads`
+    returns the shape and the leaves in row-major order — a quoted leaf as the text between its quotes — and
+    `cast_value` the array of the element casts.  Every `Rendered` text is a `RenderedQ` text (`rendered_toQ`), so
+    this subsumes `C13_inline_array`. -/
+theorem C13_inline_array_strings (ty : Ty) (ds : List Dim) (s : Str) (sh : List Nat) (toks : List Tok) (atoms : List Atom)
+    (hr : RenderedQ s sh toks) (hnone : (s == "none".toList) = false)
+    (hel : toks.mapM (tokAtom ty) = .ok atoms) (hd : checkDims ds sh = true) :
+    parseJson s = .ok (sh, toks) ∧ castText ty (some ds) s = .ok (.array sh atoms) := by
+  have hp := parseJson_renderedQ hr
+  refine ⟨hp, ?_⟩
+  simp only [castText, hnone, Bool.false_eq_true, if_false, hp, bind, Except.bind, hel, hd, if_true]
+
+/-- the element cast of a string array: the text between the quotes, unchanged -/
+theorem C13_array_str_elements (xs : List Str) :
+    (xs.map Tok.str).mapM (tokAtom .str) = .ok (xs.map Atom.str) :=
+  mapM_ok_map (tokAtom .str) _ _ xs (fun _ _ => rfl)
+
+/-- **String arrays of any nesting depth, from the text to the value**: the one-line program
+    `name str[dims] = [["a",…],[…]] [# comment]` (the array text without blank, `#`, backslash, `$`) parses to
+    exactly one parameter whose value is the array of the texts between the quotes, in row-major order. -/
+theorem C13_str_array_text (tbl : List UnitRow) (k : Nat) (nm : Str) (a : Nat) (dims : Option (List DimD)) (b c : Nat)
+    (s : Str) (sh : List Nat) (xs : List Str) (ds : List Dim) (cm : Option (Nat × Str))
+    (hn : NameOk nm) (hd : DimsOk dims) (htail : NoEsc (renderTail none cm))
+    (hr : RenderedQ s sh (xs.map Tok.str)) (hsh : sh ≠ [])
+    (hplain : ∀ ch ∈ s, ch ≠ '#' ∧ isWs ch = false ∧ ch ≠ '\\' ∧ ch ≠ '$')
+    (hds : dimsValue dims = some ds) (hcd : checkDims ds sh = true) :
+    parseLines (mkParams tbl)
+        [List.replicate k ' ' ++ (definePrefix nm a .str dims b c ++ (s ++ renderTail none cm))] =
+      .ok [{ name := nm, ty := .str, info := {}, dims := some ds, units := none,
+             value := some (.array sh (xs.map Atom.str)), declared := false }] := by
+  obtain ⟨r, hsr⟩ := renderedQ_head hr hsh
+  exact inline_array_text_core tbl k nm a .str dims b c s r sh _ _ ds none cm hn hd (by intro n x h; cases h) htail
+    (by intro n x h; cases h) (parseJson_renderedQ hr) hsr hplain hds (C13_array_str_elements xs) hcd
+
+example : RenderedQ "[\"ab\",\"c\"]".toList [2] (["ab".toList, "c".toList].map Tok.str) := by
+  have q : ∀ x : Str, x = "ab".toList ∨ x = "c".toList → StrOk x := by
+    intro x hx; rcases hx with rfl | rfl <;> (intro ch hch; revert ch; decide)
+  exact RenderedQ.arr [("\"ab\"".toList, [.str "ab".toList]), ("\"c\"".toList, [.str "c".toList])] [] (by simp)
+    (by intro it h; simp only [List.mem_cons, List.not_mem_nil, or_false] at h
+        rcases h with rfl | rfl
+        · exact RenderedQ.str _ (q _ (.inl rfl))
+        · exact RenderedQ.str _ (q _ (.inr rfl)))
+
+/-! ### scalar definitions at text level: from the line as written to the value `parse` returns -/
+
+/-- **Integer definition, end to end.**  `<k blanks>name [u]int[NN] = [+-]digits [unit] [# comment]` (any number of
+    blanks in the gaps; a written unit is known) parses to exactly one parameter: the written name, width/sign and
+    unit, and as value the integer the digits denote. -/
+theorem C13_int_scalar_text (tbl : List UnitRow) (k : Nat) (nm : Str) (a : Nat) (uns : Bool) (w : Option IntW) (b c : Nat)
+    (sg : Option Bool) (d : Str) (unit cm : Option (Nat × Str))
+    (hn : NameOk nm) (hu : ∀ n x, unit = some (n, x) → UnitOk x) (htail : NoEsc (renderTail unit cm))
+    (hunit : ∀ n x, unit = some (n, x) → tbl.any (fun r => r.name = x) = true) (hd : allDigits d = true) :
+    parseLines (mkParams tbl)
+        [List.replicate k ' ' ++ (definePrefix nm a (.int uns w) none b c ++ ((signText sg ++ d) ++ renderTail unit cm))] =
+      .ok [{ name := nm, ty := .int, info := (TyD.int uns w).info, dims := none, units := unit.map Prod.snd,
+             value := some (.scalar (.num (((if signNeg sg then -(digitsToNat d : Int) else (digitsToNat d : Int)) : Int) : Rat))),
+             declared := false }] := by
+  obtain ⟨hdne, hall⟩ := allDigits_iff hd
+  have hne : signText sg ++ d ≠ [] := by simp [hdne]
+  obtain ⟨hlit, hesc, hs⟩ := numWord_lit (signText sg ++ d) hne (by
+    intro ch hch
+    rcases List.mem_append.mp hch with h | h
+    · rcases signText_chars sg ch h with rfl | rfl <;> simp
+    · exact .inl (hall ch h))
+  have hemp : ((signText sg ++ d).isEmpty && (TyD.int uns w).ty != .str) = false := by
+    cases hh : signText sg ++ d with
+    | nil => exact absurd hh hne
+    | cons _ _ => rfl
+  exact define_scalar_text_core tbl k nm a (.int uns w) b c (.bare (signText sg ++ d)) unit cm _ hn hu htail
+    (fun n x h => ⟨.inl rfl, hunit n x h⟩) hlit hesc hs hemp (C13_cast_int_literal sg d hd)
+
+/-- **Float definition, end to end**: `name float[NN] = literal [unit] [# comment]` with a decimal / scientific
+    literal (`23.3`, `.5`, `5.`, `-1.5E-3`, `+1e5`, …) parses to one parameter whose value is the rational denoted. -/
+theorem C13_float_scalar_text (tbl : List UnitRow) (k : Nat) (nm : Str) (a : Nat) (w : Option FloatW) (b c : Nat)
+    (f : FloatD) (unit cm : Option (Nat × Str))
+    (hn : NameOk nm) (hu : ∀ n x, unit = some (n, x) → UnitOk x) (htail : NoEsc (renderTail unit cm))
+    (hunit : ∀ n x, unit = some (n, x) → tbl.any (fun r => r.name = x) = true) (hf : f.Ok) :
+    parseLines (mkParams tbl)
+        [List.replicate k ' ' ++ (definePrefix nm a (.float w) none b c ++ (f.render ++ renderTail unit cm))] =
+      .ok [{ name := nm, ty := .float, info := (TyD.float w).info, dims := none, units := unit.map Prod.snd,
+             value := some (.scalar (.num f.value)), declared := false }] := by
+  have hne := floatD_render_ne f hf
+  obtain ⟨hlit, hesc, hs⟩ := numWord_lit f.render hne (floatD_chars f hf)
+  have hemp : (f.render.isEmpty && (TyD.float w).ty != .str) = false := by
+    cases hh : f.render with
+    | nil => exact absurd hh hne
+    | cons _ _ => rfl
+  exact define_scalar_text_core tbl k nm a (.float w) b c (.bare f.render) unit cm _ hn hu htail
+    (fun n x h => ⟨.inr rfl, hunit n x h⟩) hlit hesc hs hemp (C13_cast_float_literal f hf)
+
+/-- **Boolean definition, end to end**: `name bool = true|false [# comment]`. -/
+theorem C13_bool_scalar_text (tbl : List UnitRow) (k : Nat) (nm : Str) (a b c : Nat) (bv : Bool) (cm : Option (Nat × Str))
+    (hn : NameOk nm) (htail : NoEsc (renderTail none cm)) :
+    parseLines (mkParams tbl)
+        [List.replicate k ' ' ++ (definePrefix nm a .bool none b c ++
+          ((if bv then "true".toList else "false".toList) ++ renderTail none cm))] =
+      .ok [{ name := nm, ty := .bool, info := {}, dims := none, units := none,
+             value := some (.scalar (.bool bv)), declared := false }] := by
+  have ht : "true".toList = ['t', 'r', 'u', 'e'] := by decide
+  have hf : "false".toList = ['f', 'a', 'l', 's', 'e'] := by decide
+  have hk := C13_cast_keywords .bool none [] (by decide)
+  cases bv
+  · simp only [Bool.false_eq_true, if_false]
+    have hc := hk.2.2.1
+    rw [hf] at hc ⊢
+    exact define_scalar_text_core tbl k nm a .bool b c (.bare ['f', 'a', 'l', 's', 'e']) none cm _ hn
+      (by intro n x h; cases h) htail (by intro n x h; cases h)
+      ⟨⟨'f', ['a', 'l', 's', 'e'], rfl, by decide, by decide, by decide, by decide⟩, by decide⟩
+      (by show ∀ c ∈ ['f', 'a', 'l', 's', 'e'], c ≠ '\\' ∧ c ≠ '\n'; decide)
+      (by show ∀ c ∈ ['f', 'a', 'l', 's', 'e'], c ≠ '$'; decide) rfl hc
+  · simp only [if_true]
+    have hc := hk.2.1
+    rw [ht] at hc ⊢
+    exact define_scalar_text_core tbl k nm a .bool b c (.bare ['t', 'r', 'u', 'e']) none cm _ hn
+      (by intro n x h; cases h) htail (by intro n x h; cases h)
+      ⟨⟨'t', ['r', 'u', 'e'], rfl, by decide, by decide, by decide, by decide⟩, by decide⟩
+      (by show ∀ c ∈ ['t', 'r', 'u', 'e'], c ≠ '\\' ∧ c ≠ '\n'; decide)
+      (by show ∀ c ∈ ['t', 'r', 'u', 'e'], c ≠ '$'; decide) rfl hc
+
+/-- **String definition, end to end**: `name str = "text" [# comment]` (the text free of `"`, backslash, newline,
+    `$`, and not the word `none`) parses to one parameter whose value is exactly the text between the quotes —
+    blanks and `#` inside the quotes included. -/
+theorem C13_str_quoted_text (tbl : List UnitRow) (k : Nat) (nm : Str) (a b c : Nat) (s : Str) (cm : Option (Nat × Str))
+    (hn : NameOk nm) (htail : NoEsc (renderTail none cm))
+    (hs : ∀ ch ∈ s, ch ≠ '"' ∧ ch ≠ '\\' ∧ ch ≠ '\n' ∧ ch ≠ '$') (hnone : (s == "none".toList) = false) :
+    parseLines (mkParams tbl)
+        [List.replicate k ' ' ++ (definePrefix nm a .str none b c ++ (('"' :: (s ++ ['"'])) ++ renderTail none cm))] =
+      .ok [{ name := nm, ty := .str, info := {}, dims := none, units := none,
+             value := some (.scalar (.str s)), declared := false }] := by
+  have hesc : NoEsc (Lit.render (.dq s)) := by
+    intro ch hch
+    simp only [Lit.render, List.mem_cons, List.mem_append, List.not_mem_nil, or_false] at hch
+    rcases hch with rfl | hch | rfl
+    · exact ⟨by decide, by decide⟩
+    · exact ⟨(hs ch hch).2.1, (hs ch hch).2.2.1⟩
+    · exact ⟨by decide, by decide⟩
+  exact define_scalar_text_core tbl k nm a .str b c (.dq s) none cm _ hn (by intro n x h; cases h) htail
+    (by intro n x h; cases h) (fun ch hch => (hs ch hch).1) hesc (fun ch hch => (hs ch hch).2.2.2)
+    (by simp [TyD.ty]) (C13_cast_keywords .str none s hnone).2.2.2
+
+example : (∀ ch ∈ "x # y z".toList, ch ≠ '"' ∧ ch ≠ '\\' ∧ ch ≠ '\n' ∧ ch ≠ '$') ∧ ("x # y z".toList == "none".toList) = false :=
+  ⟨by decide, by decide⟩
+
+/-! ### whole programs at text level -/
+
+/-- **The property for whole programs, from the text.**  Take ANY list of lines written in the described grammar
+    (`LineD`: group lines, definitions, declarations and modifications with every literal form, any blanks in the
+    gaps, optional unit and comment; `k` leading blanks each; no backslash / newline in the line).  Then
+    (1) the lexer returns, line by line, exactly the described nodes; (2) `parse` on the text is `parse` on those
+    nodes; (3) `parse` on the text and the declarative specification on the abstract lines `(k, name, payload)` the
+    text denotes — parent = nearest earlier name-bearing line with fewer leading blanks, path = ancestors' names +
+    own name, one parameter per distinct path in order of first appearance, type / unit of the first and value of
+    the last occurrence — either both succeed with the same parameters or both fail (`C14_text_refines_spec`
+    applied to the lexed program). -/
+theorem C13_program_text (P : Params) (prog : List (Nat × LineD)) (h : ∀ p ∈ prog, p.2.Ok ∧ NoEsc p.2.render) :
+    let lines := prog.map (fun p => List.replicate p.1 ' ' ++ p.2.render)
+    let nds := prog.map (fun p => ({ p.2.node with indent := p.1 } : Node))
+    lines.mapM determine = .ok nds ∧ parseLines P lines = parseNodes P nds ∧
+    ResEq ((parseLines P lines).map (List.map toS))
+      (specRunG (castInterp P) P.conv P.unitKnown (prog.map (fun p => p.2.aline p.1))) := by
+  intro lines nds
+  have hlex : lines.mapM determine = .ok nds := mapM_determine_program prog h
+  refine ⟨hlex, by simp [parseLines, hlex, bind, Except.bind], ?_⟩
+  have hnt : ∀ nd ∈ nds, nd.kind ≠ .table := by
+    intro nd hnd
+    obtain ⟨p, _, rfl⟩ := List.mem_map.mp hnd
+    exact lineD_not_table p.1 p.2
+  have := C14.C14_text_refines_spec P lines nds hlex hnt
+  have he : nds.map toALine = prog.map (fun p => p.2.aline p.1) := by
+    simp only [nds, List.map_map]
+    exact List.map_congr_left (fun p _ => toALine_lineD p.1 p.2)
+  rw [he] at this
+  exact this
+
+example : (LineD.group "box".toList none).Ok ∧ NoEsc (LineD.group "box".toList none).render ∧
+    (LineD.group "box".toList none).aline 2 = { indent := 2, name := "box".toList, p := .group } :=
+  ⟨⟨⟨'b', "ox".toList, by decide⟩, by decide⟩, by show ∀ c ∈ _, c ≠ '\\' ∧ c ≠ '\n'; decide, rfl⟩
+
+/-- **The directive line forms** `!constant` and `$unit …` (the two recognisers of `_determine_node` inside the
+    property's grammar that `LineD` does not describe): at any indentation, `!constant` followed by an optional
+    comment is lexed to the constant marker (whose effect on the last created parameter is `C14_constant_marks_last`),
+    and `$unit`, a blank and any further text is lexed to a unit-definition node (which creates no parameter:
+    the main loop of the model skips it; custom units are outside the modelled domain). -/
+theorem C13_directive_lines_lexed (k : Nat) (cm : Option (Nat × Str)) (w : Char) (rest : Str)
+    (hcm : NoEsc (renderComment cm)) (hw : isWs w = true) (hr : NoEsc (w :: rest)) :
+    determine (List.replicate k ' ' ++ (constantWord ++ renderComment cm)) = .ok { kind := .constant, indent := k } ∧
+    determine (List.replicate k ' ' ++ (unitWord ++ w :: rest)) = .ok { kind := .unit, indent := k } :=
+  ⟨determine_constant k cm hcm, determine_unitdef k w rest hw hr⟩
+
+example : constantWord = "!constant".toList ∧ unitWord = "$unit".toList ∧ isWs ' ' = true ∧
+    NoEsc (' ' :: "length = 1 m".toList) := ⟨by decide, by decide, by decide, by show ∀ c ∈ _, c ≠ '\\' ∧ c ≠ '\n'; decide⟩
+
+/-- **…and from the string.**  The same for the single string handed to `add_string`: the described lines joined by
+    newlines (no block values: no line contains `"""`).  What the driver runs against the real parser,
+    `parseText` on the program text, agrees with the declarative specification on the abstract lines the text denotes
+    (both succeed with the same parameters, or both fail). -/
+theorem C13_program_string (P : Params) (prog : List (Nat × LineD)) (hne : prog ≠ [])
+    (h : ∀ p ∈ prog, p.2.Ok ∧ NoEsc p.2.render) (hq : ∀ p ∈ prog, hasTriple (List.replicate p.1 ' ' ++ p.2.render) = false) :
+    ResEq ((parseText P (joinWith ['\n'] (prog.map (fun p => List.replicate p.1 ' ' ++ p.2.render)))).map (List.map toS))
+      (specRunG (castInterp P) P.conv P.unitKnown (prog.map (fun p => p.2.aline p.1))) := by
+  rw [C13_text_is_lines P _ (by simpa using hne)]
+  · exact (C13_program_text P prog h).2.2
+  · intro l hl c hc
+    obtain ⟨p, hp, rfl⟩ := List.mem_map.mp hl
+    rcases List.mem_append.mp hc with h1 | h1
+    · rw [List.eq_of_mem_replicate h1]; decide
+    · exact ((h p hp).2 c h1).2
+  · intro l hl
+    obtain ⟨p, hp, rfl⟩ := List.mem_map.mp hl
+    exact hq p hp
+
 /-- **Escaped quotes.**  A definition whose double-quoted value is written with `\\"` for every quote
     character of the intended text `s` (`s` itself free of backslash, newline and `$`): the lexer marks
     the escapes (`$@01`), finds the closing quote, and hands back exactly `s` — the backslashes are gone,
@@ -334,6 +775,77 @@ theorem C13_literal_roundtrip_escaped (k : Nat) (nm : Str) (a : Nat) (ty : TyD) 
     simp [ValD.render, Lit.render, v, List.append_assoc]
   rw [determine_render_enc k _ d hdok henc]
   simp only [d, LineD.node, v, Lit.text, decode_encQ_dq s (fun ch hch => (hs ch hch).2.2), blockNode]
+
+/-- **Escaped apostrophes in single-quoted values**: the definition `name type = '…'` whose value writes every
+    apostrophe of the intended text `s` as backslash-apostrophe lexes to the node with raw value exactly `s`
+    (marks `$@00` put in by `encode`, closing quote found, marks taken out by `decode`). -/
+theorem C13_literal_roundtrip_escaped_sq (k : Nat) (nm : Str) (a : Nat) (ty : TyD) (dims : Option (List DimD)) (b c : Nat)
+    (s : Str) (unit cm : Option (Nat × Str))
+    (hn : NameOk nm) (hd : DimsOk dims) (hu : ∀ n x, unit = some (n, x) → UnitOk x)
+    (htail : NoEsc (renderTail unit cm)) (hs : ∀ ch ∈ s, ch ≠ '\\' ∧ ch ≠ '\n' ∧ ch ≠ '$') :
+    determine (List.replicate k ' ' ++ (definePrefix nm a ty dims b c ++
+        '\'' :: (escQ '\'' s ++ '\'' :: renderTail unit cm))) = .ok (blockNode k nm ty dims s unit) := by
+  let v : ValD := { lit := .sq (encQ '\'' enc0 s), unit := unit, cm := cm }
+  let d : LineD := .define nm a ty dims b c v
+  have e0 : enc0 = ['$', '@', '0', '0'] := by decide
+  have hvok : v.Ok := by
+    refine ⟨?_, hu⟩
+    show ∀ x ∈ encQ '\'' enc0 s, x ≠ '\''
+    apply encQ_chars '\'' enc0 (fun x => x ≠ '\'')
+    · rw [e0]; decide
+    · intro x _ hx; exact hx
+  have hdok : d.Ok := ⟨hn, hd, hvok⟩
+  have henc : encode (definePrefix nm a ty dims b c ++ '\'' :: (escQ '\'' s ++ '\'' :: renderTail unit cm)) = d.render := by
+    rw [encode_escaped_sq _ _ s (NoEsc_definePrefix nm a ty dims b c hn hd) htail
+      (fun ch hch => ⟨(hs ch hch).1, (hs ch hch).2.1⟩), define_render_prefix]
+    simp [ValD.render, Lit.render, v, List.append_assoc]
+  rw [determine_render_enc k _ d hdok henc]
+  simp only [d, LineD.node, v, Lit.text, decode_encQ_sq s (fun ch hch => (hs ch hch).2.2), blockNode]
+
+/-- **Escaped quotes in modification lines**: `name = "…"` / `name = '…'` with every quote character of the
+    intended text written as backslash-quote lexes to the modification node with raw value exactly that text. -/
+theorem C13_modify_roundtrip_escaped (k : Nat) (nm : Str) (a b : Nat) (s : Str) (unit cm : Option (Nat × Str))
+    (hn : NameOk nm) (hu : ∀ n x, unit = some (n, x) → UnitOk x)
+    (htail : NoEsc (renderTail unit cm)) (hs : ∀ ch ∈ s, ch ≠ '\\' ∧ ch ≠ '\n' ∧ ch ≠ '$') :
+    determine (List.replicate k ' ' ++ (modifyPrefix nm a b ++ '"' :: (escQ '"' s ++ '"' :: renderTail unit cm))) =
+      .ok (modNode k nm s unit) ∧
+    determine (List.replicate k ' ' ++ (modifyPrefix nm a b ++ '\'' :: (escQ '\'' s ++ '\'' :: renderTail unit cm))) =
+      .ok (modNode k nm s unit) := by
+  have e0 : enc0 = ['$', '@', '0', '0'] := by decide
+  have e1 : enc1 = ['$', '@', '0', '1'] := by decide
+  have hsb : ∀ ch ∈ s, ch ≠ '\\' ∧ ch ≠ '\n' := fun ch hch => ⟨(hs ch hch).1, (hs ch hch).2.1⟩
+  have hsd : ∀ ch ∈ s, ch ≠ '$' := fun ch hch => (hs ch hch).2.2
+  constructor
+  · let v : ValD := { lit := .dq (encQ '"' enc1 s), unit := unit, cm := cm }
+    let d : LineD := .modify nm a b v
+    have hvok : v.Ok := by
+      refine ⟨?_, hu⟩
+      show ∀ x ∈ encQ '"' enc1 s, x ≠ '"'
+      apply encQ_chars '"' enc1 (fun x => x ≠ '"')
+      · rw [e1]; decide
+      · intro x _ hx; exact hx
+    have hdok : d.Ok := ⟨hn, hvok⟩
+    have henc : encode (modifyPrefix nm a b ++ '"' :: (escQ '"' s ++ '"' :: renderTail unit cm)) = d.render := by
+      rw [encode_escaped_dq _ _ s (NoEsc_modifyPrefix nm a b hn) htail hsb, modify_render_prefix]
+      simp [ValD.render, Lit.render, v, List.append_assoc]
+    rw [determine_render_enc k _ d hdok henc]
+    simp only [d, LineD.node, v, Lit.text, decode_encQ_dq s hsd, modNode]
+  · let v : ValD := { lit := .sq (encQ '\'' enc0 s), unit := unit, cm := cm }
+    let d : LineD := .modify nm a b v
+    have hvok : v.Ok := by
+      refine ⟨?_, hu⟩
+      show ∀ x ∈ encQ '\'' enc0 s, x ≠ '\''
+      apply encQ_chars '\'' enc0 (fun x => x ≠ '\'')
+      · rw [e0]; decide
+      · intro x _ hx; exact hx
+    have hdok : d.Ok := ⟨hn, hvok⟩
+    have henc : encode (modifyPrefix nm a b ++ '\'' :: (escQ '\'' s ++ '\'' :: renderTail unit cm)) = d.render := by
+      rw [encode_escaped_sq _ _ s (NoEsc_modifyPrefix nm a b hn) htail hsb, modify_render_prefix]
+      simp [ValD.render, Lit.render, v, List.append_assoc]
+    rw [determine_render_enc k _ d hdok henc]
+    simp only [d, LineD.node, v, Lit.text, decode_encQ_sq s hsd, modNode]
+
+example : escQ '\'' "it's".toList = "it\\'s".toList ∧ modifyPrefix "a.b".toList 0 1 = "a.b = ".toList := by decide
 
 /-- the same marks for single quotes: `decode` gives the text with its apostrophes back -/
 theorem C13_escape_marks_inverse (s : Str) (h : ∀ c ∈ s, c ≠ '$') :
